@@ -1,7 +1,7 @@
 #!/bin/bash
 # dev helper: export unit P, then splice + verify unit C in /var/tmp/vxs
 S=/var/tmp/vxs; D=/verif/.deps
-SD=$(python3 /verif/tools/runner.py --build-support | grep support-dir | cut -d' ' -f2); cp $SD/* $S/
+SD=$(python3 /verif/tools/runner.py --build-support | grep support-dir | cut -d' ' -f2); [ -n "$SD" ] || { echo "support build failed"; python3 /verif/tools/runner.py --build-support 2>&1 | grep -A12 "^error" | head -30; exit 2; }; cp $SD/* $S/
 if [ -z "$SKIP_P" ]; then
 rm -rf $S/repo && rsync -a --exclude target --exclude .git /repo/ $S/repo/
 cd /verif && VX_UNIT=P python3 tools/splice.py $S/repo contracts/mpd_protocol/*.vspec > $S/report_p.json || exit 2
